@@ -341,6 +341,16 @@ let cmd_lang args =
       | _ -> "err")
   | _ -> failwith "lang: bad arguments"
 
+(* the classes alone, on the parsed tree (no rule check, no program: cheap even when matching is not) *)
+let cmd_cls args =
+  match args with
+  | [ e ] -> (
+      match Parse.parse (to_str (unhex e)) with
+      | Parse.ParseOk t -> cls_text t
+      | Parse.ParseFuel -> "model-out-of-fuel"
+      | _ -> "err")
+  | _ -> failwith "cls: bad arguments"
+
 (* ---- any / not ------------------------------------------------------------------------------------------ *)
 exception Build_failed of string
 
@@ -530,6 +540,7 @@ let dispatch (line : string) : string =
       | "anymm" -> cmd_anymm args
       | "anyn" -> cmd_anyn args
       | "lang" -> cmd_lang args
+      | "cls" -> cmd_cls args
       | "anylang" -> cmd_anylang args
       | "not" -> cmd_not args
       | "part" -> cmd_part args
